@@ -244,6 +244,8 @@ def main(chk, replay=None):
         raise tlc.MachineryError('C03 negative control: reference terms are not accepted')
     chk.negative_control(check_result(x, y, bad1) is not None and check_result(x, y, bad2) is not None,
                          'C03 term identification accepts r-1 / g+1')
+    from harness import session
+    session.run(chk, 'C03')          # spec/Session.tla: the property inside whole analysis sessions
     chk.exhaustive = True
 
 
